@@ -130,8 +130,8 @@ def check(col, raw, cache_name, cache):
 def queries(tier):
     out = []
     failing = FAILING + (FAILING3 if tier != "quick" else FAILING3[:1])
-    prefixes = PREFIXES if tier != "quick" else PREFIXES[:4]
-    suffixes = SUFFIXES if tier != "quick" else SUFFIXES[:5] + SUFFIXES[5:6]
+    prefixes = PREFIXES
+    suffixes = SUFFIXES
     for p in prefixes:
         for f in failing:
             if f == "failfirst" and p:
